@@ -70,6 +70,21 @@ def run(chk, ctx) -> None:
         if T.spec('not self.runout_count_selection_flag', boolean=True) in cs and T.spec('self.runout_count is not None', boolean=True) in cs:
             ok = ws.get('street_return_index') == T.spec('self.street_index + 1') and ws.get('street_return_count') == T.spec('self.runout_count - 1') \
                 and ws.get('runout_count_selection_flag') == ('const', True)
+    closed = True
+    n_open = 0
+    for p in ctx.paths(es):
+        cs = set()
+        for c in p.conds():
+            cs |= set(conjuncts(unversion(c)))
+        if p.raised:
+            continue
+        if T.spec('self.runout_count_selection_flag', boolean=True) not in cs:
+            # nothing on this path says the choice was already closed: it must close it
+            n_open += 1
+            closed &= any(T.root_self_attr(e.term) == 'runout_count_selection_flag' and e.value == ('const', True) for e in p.writes())
+    chk.ob('C14.once', 'State._end_showdown:closed', closed and n_open >= 2, es.loc,
+           'when the first showdown ends the choice is closed for the rest of the hand, whether or not anybody stated a preference '
+           '(it is offered to each player once)')
     chk.ob('C14.once', 'State._end_showdown', ok, es.loc,
            'with an agreed count n the remaining streets are dealt again n - 1 more times, starting from the street after the all-in')
     eb = ctx.sfi('_end_bet_collection')
@@ -201,5 +216,17 @@ def run(chk, ctx) -> None:
              for nd in walk_no_nested(bp.node))
     chk.ob('C14.split', 'State._begin_chips_pushing', ok, bp.loc,
            'each pot is divided evenly between the boards (quotient per board, remainder to the first: see C01.divmod)')
-    chk.floor('C14.once', 6)
+    from .c01 import _divmod
+    from .c19 import _Rename
+
+    class _Split(_Rename):
+        def ob(self, rule, construct, *a, **k):
+            if '_begin_chips_pushing' in construct and 'self.board_count' not in construct and 'amount' in construct.split('divmod(')[1][:8]:
+                return self.chk.ob('C14.split', construct, *a, **k)
+            return True
+
+        def floor(self, rule, n):
+            return None
+    _divmod(_Split(chk), ctx)
+    chk.floor('C14.once', 7)
     chk.floor('C14.count_checked', 3)
